@@ -72,6 +72,8 @@ type wReg struct {
 type wOp struct {
 	Outs    []string `json:"outs,omitempty"` // op chain: what each member resolver of a ChainedDIDResolver answers
 	Regs    []wReg   `json:"regs,omitempty"` // op router: Register calls in order
+	Vers    []wVer   `json:"vers,omitempty"` // op rtime: the versions of this DID in the node's store (active?, updated_at offset)
+	At      *int64   `json:"at,omitempty"`   // op rtime: ResolveMetadata.ResolveTime (offset; absent = none)
 	Op      string   `json:"op"`
 	Methods []string `json:"methods,omitempty"` // node: config didmethods
 	Strict  bool     `json:"strict,omitempty"`
@@ -303,6 +305,8 @@ func wExec(t *testing.T, node **wNode, op *wOp) (line string) {
 		return "node ok"
 	case "jwk":
 		return wExecJwk(op)
+	case "rtime":
+		return wExecRTime(*node, op)
 	case "chain":
 		return wExecChain(op)
 	case "router":
@@ -642,6 +646,7 @@ func wGenerate(seed int64, thorough bool) []wOp {
 			ops = append(ops, wJwkSystematic(r))
 		}
 		ops = append(ops, wChainOps(r, nj)...)
+		ops = append(ops, wRTimeOps(r, nj/3, ni)...)
 		for k := 0; k < per; k++ {
 			op := wOp{Op: "resolve", Allow: r.Intn(3) == 0}
 			op.NonNil = !op.Allow && r.Intn(2) == 0
